@@ -330,3 +330,35 @@ Definition star_free (gs : list gpath) : bool := forallb (fun g => negb (has_sta
 (* the domain of the main theorem *)
 Definition in_domain (black : bool) (gs : list gpath) : bool :=
   no_conflict gs && (if black then no_tail_star gs else true).
+
+(* ------------------------------------------------------------------ domain predicates of the GetPath / PathInMask theorem *)
+
+(* field ids are unique in every struct of the environment *)
+Definition env_ok (env : senv) : bool :=
+  forallb (fun sf => nodupb Z.eqb (map f_id (snd sf))) env.
+
+(* a segment with exactly one key (no star, no key set) *)
+Definition simple_seg (s : pseg) : bool :=
+  match s with
+  | PName _ | PId _ => true
+  | PIdx [_] | PKeyI [_] | PKeyS [_] => true
+  | _ => false
+  end.
+
+(* no struct star *)
+Fixpoint no_starf (p : list pseg) : bool :=
+  match p with [] => true | PStarF :: _ => false | _ :: r => no_starf r end.
+
+(* the query keys of a typed single-key path *)
+Fixpoint qkeys (g : gpath) : list qkey :=
+  match g with
+  | [] => []
+  | GFld id _ :: r => QF id :: qkeys r
+  | GInts [i] _ :: r => QI i :: qkeys r
+  | GStrs [x] _ :: r => QS x :: qkeys r
+  | _ :: r => qkeys r
+  end.
+
+(* no path is the root path "$" *)
+Definition no_root_path (gs : list gpath) : bool :=
+  forallb (fun g => match g with [] => false | _ => true end) gs.
